@@ -22,6 +22,12 @@ def parse_case(line):
     return lo, hi, mx, ops
 
 
+def alloc_targets(prop):
+    """make targets of the allocator check: the property's theorems, the monitors and checkers — never
+    another property's regenerated obligations (GenChecks/*)"""
+    return ["theories/Properties/%s.vo" % prop, "theories/Mon/All.vo", "theories/Corr/AllocCorr.vo", "theories/Corr/FramingCorr.vo"]
+
+
 def impl_run(lo, hi, mx, ops):
     args = ["alloc-replay", lo, hi, mx]
     for t, a in ops:
@@ -82,7 +88,7 @@ def replay(path, prop="C20"):
     if not line:
         print("no case-line in replay file")
         return 2
-    C.coq_make()
+    C.coq_make(targets=alloc_targets(prop))
     C.build_checker()
     ok, out = C.build_harness()
     if not ok:
@@ -108,7 +114,7 @@ def run_alloc(PROP, tag, tier, seed, t0):
     bad = C.hygiene()
     if bad:
         raise C.CheckError("forbidden tokens in the development: %s" % bad)
-    ok, out = C.coq_make()
+    ok, out = C.coq_make(targets=alloc_targets(PROP))
     if not ok:
         raise C.CheckError("Coq build failed:\n" + out[-3000:])
     ob = C.property_obligations(PROP) if tag is None else dict(ok=True, theorems=[], examples=[], assumptions=[], problems=[], out="")
